@@ -169,7 +169,7 @@ ExtractJson(col, l) ==
 
 \* ---- one column, one row ---------------------------------------------------------------------------
 TrimS(s) ==
-  LET ws(c) == c \in {32, 9, 10, 13}
+  LET ws(c) == c \in {32, 9, 10, 13, 11, 12, 133, 160, 8195, 8232, 12288}      \* whitespace in the Unicode sense (White_Space), as far as the menus use it
       RECURSIVE lt(_) lt(x) == IF x # <<>> /\ ws(Head(x)) THEN lt(Tail(x)) ELSE x
       RECURSIVE rt(_) rt(x) == IF x # <<>> /\ ws(x[Len(x)]) THEN rt(SubSeq(x, 1, Len(x) - 1)) ELSE x
   IN rt(lt(s))
